@@ -350,6 +350,43 @@ pub fn script(c: &Value) -> Value {
             Err(e) => viol.push(json!({"what":"local","layout":name,"script":text,"observed":format!("PANIC {}", panic_msg(e)),"expected":"no panic"})),
         }
     }
+    // Local, second half: a statement leaves the parser's persistent configuration (options,
+    // ParserState, remaining recursion depth) as it found it, so that the next statement of the
+    // script is parsed as it would be alone.  On a leak, look for a successor that shows it.
+    {
+        let r = std::panic::catch_unwind(std::panic::AssertUnwindSafe(|| -> Result<Option<(String, String)>, ParserError> {
+            let mut p = Parser::new(d.as_ref()).try_with_sql(&format!("{s};"))?;
+            let before = persistent(&p);
+            p.parse_statement()?;
+            let after = persistent(&p);
+            Ok(if before != after { Some((format!("{:?}", before), format!("{:?}", after))) } else { None })
+        }));
+        if let Ok(Ok(Some((before, after)))) = r {
+            let mut witness = None;
+            for probe in state_probes(d.as_ref()) {
+                let alone = parse_with(d.as_ref(), &probe, None, None);
+                if alone.class() == "panic" {
+                    continue;
+                }
+                let text = format!("{s}; {probe}");
+                let got = parse_with(d.as_ref(), &text, None, None);
+                let want = match &alone {
+                    Out::Ok(v) => cat(&a, v),
+                    other => other.clone(),
+                };
+                if got != want {
+                    witness = Some(json!({"what":"combo","layout":"s; probe","script":text,"observed":got.show(),"expected":want.show()}));
+                    break;
+                }
+            }
+            match witness {
+                Some(w) => viol.push(w),
+                None => viol.push(json!({"what":"state","layout":"s;","script":format!("{s};"),
+                    "observed": format!("(trailing_commas, state_is_normal, remaining_depth) after the statement: {after}"),
+                    "expected": format!("as before the statement: {before}")})),
+            }
+        }
+    }
     // negative half: without a separator the loop must not accept two statements silently
     let glued = format!("{s} {t}");
     let g = parse_with(d.as_ref(), &glued, None, None);
@@ -362,6 +399,35 @@ pub fn script(c: &Value) -> Value {
     }
     json!({"status": if viol.is_empty() {"ok"} else {"violation"}, "kind": kind, "kind_t": stmt_kind(&b[0]), "tail": tail,
            "combined": s_ok && t_ok, "viol": viol, "glued_two": glued_two})
+}
+
+/// The parser configuration that outlives a statement (read through the cfg-guarded hooks).
+fn persistent(p: &Parser) -> (bool, bool, usize) {
+    (p.verif_trailing_commas(), p.verif_state_is_normal(), p.verif_remaining_depth())
+}
+
+/// Successor statements whose parse depends on the trailing-comma option, on ParserState, or on
+/// the remaining recursion depth.
+fn state_probes(d: &dyn sqlparser::dialect::Dialect) -> Vec<String> {
+    let mut v: Vec<String> = [
+        "SELECT a FROM t GROUP BY a, having - 1", "SELECT a FROM t ORDER BY a, limit", "SELECT a FROM t GROUP BY a, b,",
+        "CREATE TABLE t (a INT, b INT,)", "SELECT PRIOR a FROM t", "SELECT a FROM t WHERE PRIOR a = 1",
+        "SELECT a, from FROM t", "INSERT INTO t (a, b,) VALUES (1, 2)", "SELECT f(a, b,)", "SELECT * FROM t ORDER BY a, b,",
+    ].iter().map(|x| x.to_string()).collect();
+    // the deepest parenthesised expression accepted at the default limit
+    let nest = |n: usize| format!("SELECT {}1{}", "(".repeat(n), ")".repeat(n));
+    let mut best = 0;
+    for n in 1..60 {
+        if parse_with(d, &nest(n), None, None).class() == "ok" {
+            best = n;
+        } else {
+            break;
+        }
+    }
+    if best > 0 {
+        v.push(nest(best));
+    }
+    v
 }
 
 /// Is `sql` accepted as exactly one statement whose text has no top-level `;`?
